@@ -908,6 +908,15 @@ def check_b(ck, repo):
             kw.setdefault(["fit_intercept", "copy_X", "n_jobs", "positive"][i] if i < 4 else f"arg{i}", ex.text(a, f, c))
         ck.verdict(kw.get("fit_intercept") == "False", "C05.b", f, c, "inner solver has fit_intercept=False (the ones column carries the intercept)", "inner LinearRegression does not pass fit_intercept=False: the intercept is fitted twice")
         ck.verdict(kw.get("positive") == "self.positive", "C05.b", f, f"positive={kw.get('positive')}", "positive=self.positive forwarded", "positive=True would not constrain the coefficients: the option is not forwarded to the inner solver")
+    # the smoothing constant of the weights is the estimator's own
+    from .sem import nested_functions as _nf
+
+    cz = [g for g in _nf(repo, fit) if "delta" in g.named_params]
+    for g in cz:
+        for c_ in calls(fit, lambda c, g=g: src_of(c.func) == g.name):
+            b_ = bind(c_, g.named_params)
+            dv = b_.get("delta")
+            ck.verdict(dv is not None and ex.text(dv, fit, c_) == "self.delta", "C05.b", fit, c_, "the IRLS weights are 1 / max(delta, |residual|) with the estimator's delta", f"{g.name} is called with delta={src_of(dv) if dv is not None else 'its default'}: a non-default delta is ignored, so for targets in small units every residual is below the threshold and the fit is a least-squares fit, not the quantile")
     T, F = cond_text("self.fit_intercept"), cond_text("self.fit_intercept", False)
     # stored intercept / coefficients
     layout = {}
